@@ -5,7 +5,10 @@ Streams (all through the REAL PEPit under $PEPIT_REPO):
              -> expression_to_matrices / expression_to_sparse_matrices outputs vs Model/Matrices.v, exact;
              on the implementation alone: dense / sparse data evaluated at random symmetric rational (G, F)
              (sparse triples read with MOSEK's symmetric-storage convention) vs the expression's own value
-  collect    random small PEP programs solved through a RecordingWrapper registered from the harness: the
+  collect    (LMIs are declared from nested lists, nested tuples and object ndarrays, with scalar entries; the caller's
+             container is overwritten after the declaration and re-used for further declarations; the declared item is
+             the snapshot of the entries taken when add_psd_matrix is called)
+             random small PEP programs solved through a RecordingWrapper registered from the harness: the
              sequence of send_* calls (dictionaries, senses, LMI entries), both tracking lists, the objective leaf
              and the length of F vs Model/Collect.v interpreting the plan GENERATED from pep.py, applied to a
              snapshot of the declared model; on the implementation alone: multiset of sent objects = declared
@@ -268,13 +271,79 @@ def _rand_matrix(rng):
     return M
 
 
+def _entry_dump(e, pid, xid):
+    """dictionary of one entry of a declared matrix: an Expression, or a python scalar (PSDMatrix stores it as the
+    constant expression {1: value})"""
+    if isinstance(e, (int, float)):
+        return [[[2], Q(e)]]
+    return T.dump_edict(e.decomposition_dict, pid, xid)
+
+
+def declare_lmi(target, pep, rng, desc):
+    """declare one LMI (or two from the same re-used buffer) on `target` (the PEP or a function) through
+    add_psd_matrix, from a nested list / nested tuple / object ndarray; record the entries AS THEY ARE AT DECLARATION
+    TIME in pep._c05_decl (that snapshot is the declared item); afterwards overwrite entries of the caller's
+    container: a declaration must not be affected by what the caller later does with its own container."""
+    import numpy as np
+    M = _rand_matrix(rng)
+    s = len(M)
+    if s >= 2 and rng.random() < 0.25:                   # (an all-scalar nested list becomes a numeric ndarray whose
+        k = rng.randrange(s)                             #  numpy scalars PSDMatrix rejects: outside this property)
+        M[k][k] = rng.choice([1, 2, 0.5, 0])           # scalar entry
+    form = rng.choice(["list", "tuple", "ndarray", "ndarray"])
+    if form == "list":
+        cont = [list(r) for r in M]
+    elif form == "tuple":
+        cont = tuple(tuple(r) for r in M)
+    else:
+        cont = np.empty((s, s), dtype=object)
+        for i in range(s):
+            for j in range(s):
+                cont[i, j] = M[i][j]
+
+    def cell(i, j):
+        return cont[i, j] if form == "ndarray" else cont[i][j]
+
+    def overwrite():
+        for _ in range(rng.randint(1, s * s)):
+            i, j = rng.randrange(s), rng.randrange(s)
+            e = _rand_expr(rng)
+            if form == "ndarray":
+                cont[i, j] = e
+            else:
+                cont[i][j] = e
+    n_decl = 2 if (form != "tuple" and rng.random() < 0.4) else 1
+    for d in range(n_decl):
+        if d > 0:
+            overwrite()                                  # the buffer is re-used for another, different LMI
+            desc["lmi_buffer_reuse"] = desc.get("lmi_buffer_reuse", 0) + 1
+        pid, xid = C.leaf_maps()
+        declared = [[_entry_dump(cell(i, j), pid, xid) for j in range(s)] for i in range(s)]
+        target.add_psd_matrix(cont)
+        obj = target.list_of_psd[-1]
+        pep._c05_decl[id(obj)] = (obj, declared)
+        desc["lmi_forms"][form] = desc["lmi_forms"].get(form, 0) + 1
+    if form != "tuple" and rng.random() < 0.7:
+        overwrite()                                      # ... and modified after the last declaration
+        desc["lmi_container_mutated"] = desc.get("lmi_container_mutated", 0) + 1
+
+
+def declared_psd(pep, p, pid, xid):
+    """entries of an LMI as declared (snapshot taken by declare_lmi), else as they are now"""
+    rec = getattr(pep, "_c05_decl", {}).get(id(p))
+    if rec is not None and rec[0] is p:
+        return rec[1]
+    return d_psd(p, pid, xid)
+
+
 def build_program(rng):
     """a small PEP declared through the public API; returns (pep, description)"""
     from PEPit import PEP, Point, Expression
     with warnings.catch_warnings():
         warnings.simplefilter("ignore")
         pep = PEP()
-        desc = dict(classes=[], composite=False, partition=0, n_metrics=0)
+        pep._c05_decl = {}
+        desc = dict(classes=[], composite=False, partition=0, n_metrics=0, lmi_forms={})
         funcs = []
         for _ in range(rng.choice([1, 1, 2, 2, 3])):
             name = rng.choice(LMI_CLASSES) if rng.random() < 0.4 else rng.choice(PLAIN_CLASSES)
@@ -315,9 +384,9 @@ def build_program(rng):
             for _ in range(rng.choice([0, 0, 1, 2])):
                 f.add_constraint(_rand_cons(rng))
             if rng.random() < 0.3:
-                f.add_psd_matrix(_rand_matrix(rng))
+                declare_lmi(f, pep, rng, desc)
         for _ in range(rng.choice([0, 0, 1, 2])):
-            pep.add_psd_matrix(_rand_matrix(rng))
+            declare_lmi(pep, pep, rng, desc)
         nm = rng.choice([1, 1, 2, 3])
         for k in range(nm):
             r = rng.random()
@@ -349,12 +418,12 @@ def snapshot_before(pep):
         metrics=[T.dump_edict(e.decomposition_dict, pid, xid) for e in pep.list_of_performance_metrics],
         metric_objs=list(pep.list_of_performance_metrics),
         cons=[d_cons(c, pid, xid) for c in pep.list_of_constraints], cons_objs=list(pep.list_of_constraints),
-        psd=[d_psd(p, pid, xid) for p in pep.list_of_psd], psd_objs=list(pep.list_of_psd),
+        psd=[declared_psd(pep, p, pid, xid) for p in pep.list_of_psd], psd_objs=list(pep.list_of_psd),
         funcs=[dict(obj=f, is_leaf=bool(f.get_is_leaf()),
                     class_cons_old=[d_cons(c, pid, xid) for c in f.list_of_class_constraints],
                     class_psd_old=[d_psd(p, pid, xid) for p in f.list_of_class_psd],
                     cons=[d_cons(c, pid, xid) for c in f.list_of_constraints], cons_objs=list(f.list_of_constraints),
-                    psd=[d_psd(p, pid, xid) for p in f.list_of_psd], psd_objs=list(f.list_of_psd))
+                    psd=[declared_psd(pep, p, pid, xid) for p in f.list_of_psd], psd_objs=list(f.list_of_psd))
                for f in Function.list_of_functions],
         parts=[dict(obj=p, cons_old=[d_cons(c, pid, xid) for c in p.list_of_constraints])
                for p in BlockPartition.list_of_partitions],
@@ -511,9 +580,16 @@ def multiset_check(pep, snap, w):
         decl(ps["cons_objs"], "partition %d constraint" % k)
     sent = Counter()
     extra = []
+    decl = getattr(pep, "_c05_decl", {})
+    pid, xid = C.leaf_maps()
     for ev in w.events:
         if ev[0] in ("send", "lmi"):
             o = ev[-1]
+            if ev[0] == "lmi" and id(o) in decl and decl[id(o)][0] is o:
+                now = d_psd(o, pid, xid)
+                if _plain(now) != _plain(decl[id(o)][1]):
+                    return dict(kind="lmi-sent-differs-from-its-declaration", what=what.get(id(o)),
+                                declared=_plain(decl[id(o)][1]), sent=_plain(now))
             if id(o) in declared:
                 sent[id(o)] += 1
                 kind_ok = (type(o).__name__ == ("Constraint" if ev[0] == "send" else "PSDMatrix"))
@@ -748,6 +824,10 @@ def stream_programs(tier, seed, corpus):
         hist["second_solve"] += int(d["second_solve"])
         hist["extended_between_solves"] += int(bool(d.get("extended_between_solves")))
         hist["lmi_items"] += d["n_lmi"]
+        for fm, n in d.get("lmi_forms", {}).items():
+            hist.setdefault("lmi_declared_from", {})[fm] = hist.setdefault("lmi_declared_from", {}).get(fm, 0) + n
+        hist["lmi_buffer_reuse"] = hist.get("lmi_buffer_reuse", 0) + d.get("lmi_buffer_reuse", 0)
+        hist["lmi_container_mutated"] = hist.get("lmi_container_mutated", 0) + d.get("lmi_container_mutated", 0)
         hist["fresh_leaves"] += int(d["fresh"] > 0)
         hist["metrics"][d["n_metrics"]] = hist["metrics"].get(d["n_metrics"], 0) + 1
         sizes.append(d["n_sent"])
